@@ -259,6 +259,13 @@ def dropLine (c : Cbuf) (len lines : Int) : Int × Cbuf :=
 
 def linesUsed (c : Cbuf) : Nat := (findUnreadLine c c.size (-1)).2
 
+/-- `cbuf_write_line`: "Determine if src will fit (or be made to fit) in dst cbuf" -/
+def lineRefused (c : Cbuf) (len : Nat) : Bool :=
+  match c.mode with
+  | .noDrop => decide (len > c.size - c.used)
+  | .wrapOnce => decide (len > c.size)
+  | .wrapMany => false
+
 /-- `cbuf_write_line` on a NUL-free string. -/
 def writeLine (c0 : Cbuf) (s : List UInt8) : Int × Nat × Cbuf :=
   let ncopy0 := s.length
@@ -266,12 +273,7 @@ def writeLine (c0 : Cbuf) (s : List UInt8) : Int × Nat × Cbuf :=
   let len := if needNl then s.length + 1 else s.length
   let nfree0 := c0.size - c0.used
   let c := if len > nfree0 ∧ c0.size < c0.maxsize then (grow c0 (len - nfree0)).1 else c0
-  let refused : Bool :=
-    match c.mode with
-    | .noDrop => decide (len > c.size - c.used)
-    | .wrapOnce => decide (len > c.size)
-    | .wrapMany => false
-  if refused then (-1, 0, c)
+  if lineRefused c len then (-1, 0, c)
   else
     let ndrop0 := if len > c.size then len - c.size else 0
     let ncopy := ncopy0 - ndrop0
